@@ -73,8 +73,13 @@ def generate(ctx, salt, nprog, features=None, ncalls=8, size=1.0, stats=None, np
         items.append({"prog": p, "calls": cs, "all_calls": calls, "chosen": chosen, "model": (rs, None),
                       "all_configs": len(items) < nprobe})
     # final storage must be recomputed for the kept prefix: re-evaluate the kept sequences
-    models2 = H.model_eval([(it["prog"], it["calls"]) for it in items], f"{ctx.pid}{salt}b")
-    for it, m in zip(items, models2):
+    # (only where calls were dropped; otherwise the first evaluation already is the answer)
+    redo = [it for it in items if len(it["calls"]) != len(it["all_calls"])]
+    for it, m in zip(items, models):
+        if len(it["calls"]) == len(it["all_calls"]):
+            it["model"] = m
+    models2 = H.model_eval([(it["prog"], it["calls"]) for it in redo], f"{ctx.pid}{salt}b") if redo else []
+    for it, m in zip(redo, models2):
         it["model"] = m
     kinds = stats.setdefault("node_kinds", {})
     for it in items:
